@@ -305,6 +305,11 @@ func execC10(c *hlib.Ctx, tok []string) string {
 					if s, ok := b.stores[cfg.storeKey()]; ok {
 						_ = s.Close()
 						delete(b.stores, cfg.storeKey())
+						for k := range c10Counters {
+							if strings.HasPrefix(k, cfg.storeKey()) {
+								delete(c10Counters, k)
+							}
+						}
 					}
 				}
 			}
@@ -403,7 +408,7 @@ func genC10(c *hlib.Ctx) {
 	// ---- posting groups
 	genPgGroups(c, c.N(3000, 150000))
 	// ---- stores
-	nStores, nReq := c.N(14, 250), c.N(14, 30)
+	nStores, nReq := c.N(14, 220), c.N(14, 30)
 	for i := 0; i < nStores; i++ {
 		g := &storeGen{r: r, storedPool: []int{1, 2, 4, 5, 7, 9, 11}, extPool: []int{5, 6, 9, 11}}
 		blocks := g.genBlocks(r.Range(1, 3), pickInt(r, 4, 12, 40), 1)
@@ -470,6 +475,35 @@ func genC10(c *hlib.Ctx) {
 				if k == 1 {
 					c.Do(line, false)
 				}
+			}
+			// cache histories with the SAME selectors over DIFFERENT ranges on a fresh store with a real index cache and lazy
+			// expansion made to happen: what the first (fully drained) request caches for (block, selectors) — the expanded
+			// postings, which have no time range in their key — must serve a later request over another range. Series are
+			// sparse (they cover only a part of their block), so a narrow first range leaves matching series without chunks.
+			if r.Chance(1, 3) {
+				hms := ms
+				if !lazyProne {
+					hms = g.genLazyProneMatchers(blocks)
+				}
+				lo, hi := genRange(r, blocks)
+				var ranges [][2]int64
+				switch r.Intn(3) {
+				case 0: // narrow -> wide
+					mid := lo + (hi-lo)/2
+					ranges = [][2]int64{{mid, mid + r.I64Range(0, 5)}, {-10, 100000}, {lo, hi}}
+				case 1: // disjoint
+					mid := lo + (hi-lo)/2
+					ranges = [][2]int64{{lo, mid}, {mid + 1, hi + 20}, {-10, 100000}}
+				default: // shifted
+					d := r.I64Range(1, 40)
+					ranges = [][2]int64{{lo, hi}, {lo + d, hi + d}, {lo - d, hi - d}, {-10, 100000}}
+				}
+				var rqs []string
+				for _, rg := range ranges {
+					rqs = append(rqs, fmt.Sprintf("%d~%d~%s~%s~%d", rg[0], rg[1], showMatchers(hms), without, sk))
+				}
+				c.Count("st:history-same-selectors-other-ranges")
+				c.Do(fmt.Sprintf("st.hist bkt+l1+b%d+s%d+c1+m1 %s %s", pickInt(r, 1, 3, 10000), pickInt(r, 1, 3, 32), tb, strings.Join(rqs, "!")), true)
 			}
 			// a cache history on a fresh store: the request, another one, the request again
 			if r.Chance(1, 3) {
